@@ -39,7 +39,11 @@ Layout(b) ==
       oMat == oSub + 16 * c(2) + 12 * nTss
       oBone == oMat + 4 * c(3)
       oBt == oBone + 4 * c(4)
-      oShape == oBt + 132 * c(5)
+      \* version 5: 64 indices + count (132 bytes) per table.  Version 6, as the library reads it (the layout is not
+      \* verifiable offline): per table a skipped word, the count, the indices, and a padding word when the count is even
+      V6TableEnd(o) == LET n == U16(b, o + 2) IN o + 4 + 2 * n + (IF n % 2 = 0 THEN 2 ELSE 0)
+      oShape == IF fh.version >= 16777222 THEN FoldLeft(LAMBDA o, k : V6TableEnd(o), oBt, [k \in 1..c(5) |-> k])
+                ELSE oBt + 132 * c(5)
       oShapeMesh == oShape + 16 * c(6)
       oShapeVal == oShapeMesh + 12 * c(7)
   IN [fh |-> fh, oStrings |-> oStr + 8, stringSize |-> sSize, oMh |-> oMh,
